@@ -40,6 +40,9 @@ pub enum Cause {
     HandlerErr,
     /// a further PUBLISH whose handler is suspended first and fails when released (older handlers may still be running)
     HandlerErrLate,
+    /// three further publishes with suspended handlers: the first is released and completes, then the second fails while the
+    /// third is still running (the failing handler is the oldest pending one, a newer one is in flight behind it)
+    HandlerErrFront,
     /// server: SUBSCRIBE whose protocol handler fails
     CtlErr,
     /// control service fails on a back-pressure notification
@@ -106,7 +109,7 @@ pub fn scenario(k: u8, role: Role) -> (&'static str, u16, Vec<Op>) {
 }
 
 pub fn causes(role: Role) -> Vec<Cause> {
-    let mut v = vec![Cause::PeerClose, Cause::ReadError, Cause::WriteError, Cause::Garbage, Cause::Oversize, Cause::WrongAck, Cause::Unexpected, Cause::HandlerErr, Cause::HandlerErrLate, Cause::BackpressureErr, Cause::AppClose(0), Cause::AppClose(1), Cause::PeerDisconnect, Cause::AckThenClose];
+    let mut v = vec![Cause::PeerClose, Cause::ReadError, Cause::WriteError, Cause::Garbage, Cause::Oversize, Cause::WrongAck, Cause::Unexpected, Cause::HandlerErr, Cause::HandlerErrLate, Cause::HandlerErrFront, Cause::BackpressureErr, Cause::AppClose(0), Cause::AppClose(1), Cause::PeerDisconnect, Cause::AckThenClose];
     if role.is_v5() {
         v.extend([Cause::UnknownAlias, Cause::AppClose(2), Cause::AppClose(3)]);
     }
@@ -138,7 +141,7 @@ fn expected(cause: Cause, role: Role) -> Class {
     match cause {
         Cause::PeerClose | Cause::ReadError | Cause::WriteError | Cause::AppClose(_) | Cause::AckThenClose | Cause::AppCloseSlow => Class::Gone,
         Cause::Garbage | Cause::Oversize | Cause::WrongAck | Cause::PubRelUnknown | Cause::UnknownAlias | Cause::DupId | Cause::Unexpected | Cause::KeepAlive => Class::Protocol,
-        Cause::HandlerErr | Cause::HandlerErrLate | Cause::CtlErr | Cause::BackpressureErr => Class::Error,
+        Cause::HandlerErr | Cause::HandlerErrLate | Cause::HandlerErrFront | Cause::CtlErr | Cause::BackpressureErr => Class::Error,
         Cause::PeerDisconnect => {
             if role == Role::V3Client {
                 Class::Protocol
@@ -233,6 +236,24 @@ async fn inject(c: &Case, w: &mut World) -> bool {
                     must_end = false;
                 }
             }
+        }
+        Cause::HandlerErrFront => {
+            let s0 = app.pub_seq.get();
+            app.pub_plans.borrow_mut().insert(s0 + 1, PubPlan { outcome: Outcome::Err, read: ReadPlan::Eager });
+            let mut b = Vec::new();
+            for k in 0..3u32 {
+                app.hold(G_PUB, s0 + k);
+                b.extend(w.eut.encode(&P5::Publish(Box::new(s5::Publish5 { topic: "in/f".into(), qos: 1, pid: Some(231 + k as u16), payload_len: 1, ..Default::default() })), &[1]));
+            }
+            w.eut.peer().send(&b);
+            w.eut.settle().await;
+            if w.stalled || payload_owed {
+                must_end = false;
+            }
+            // the oldest completes, then the next one fails while the newest is still suspended
+            app.open(G_PUB, s0);
+            w.eut.settle().await;
+            app.open(G_PUB, s0 + 1);
         }
         Cause::CtlErr => {
             let seq = app.ctl_seq.get();
@@ -618,7 +639,7 @@ pub fn all_cases(thorough: bool) -> Vec<Case> {
                 for cause in causes(role) {
                     // scenario 11: the dispatcher does not exist yet when the cause arrives; causes that rely on a handler
                     // being suspended at that moment do not apply
-                    if sc == 11 && matches!(cause, Cause::DupId | Cause::HandlerErrLate | Cause::BackpressureErr | Cause::PubRelUnknown) {
+                    if sc == 11 && matches!(cause, Cause::DupId | Cause::HandlerErrLate | Cause::HandlerErrFront | Cause::BackpressureErr | Cause::PubRelUnknown) {
                         continue;
                     }
                     for hold_stop in [false, true] {
@@ -701,7 +722,7 @@ pub fn run(ctx: &Ctx, started: Instant) -> i32 {
         level: "fault_enumeration",
         rule: format!(
             "grid of {total} cases: base scenarios {names:?} x every step index (cause injected after 0..n steps) x causes {{peer close, read error, write error, malformed Remaining Length, frame above the inbound maximum, unsolicited PUBACK, packet type the role never receives, \
-             failing publish handler (at once, or after having been suspended while older handlers still run), control service failing on a back-pressure notification, application close / force_close (v5 also close_with_reason / close_with_no_reason), peer DISCONNECT; v5: unknown topic alias; v3 server: PUBREL with unknown id, duplicate QoS 1 id; \
+             failing publish handler (at once, after having been suspended while older handlers still run, or as the oldest pending one with a newer handler still running), control service failing on a back-pressure notification, application close / force_close (v5 also close_with_reason / close_with_no_reason), peer DISCONNECT; v5: unknown topic alias; v3 server: PUBREL with unknown id, duplicate QoS 1 id; \
              servers: failing protocol handler; servers, after the last step of each scenario, in real time: keep-alive expiry (handshake keep-alive 1 s, silent peer); clients with keep-alive 1 s, in real time: application close with a teardown of 1.3 s}} x Stop notification handled at once / held open / answered with an error x four roles; for peer close and read error additionally every byte offset 1..39 inside the inbound packet being delivered (quick: scenarios 0-2 and 7; thorough: all). \
              Oracle: exactly one Stop of the class the cause demands (protocol / application error / peer gone; a cause that cannot take effect because its bytes land in an owed payload or nothing is written falls back to a peer close), no control call after it, every owned \
              send/ready/release/chunk future resolved, no clean end of an incomplete payload, every handler finished or dropped and none dropped before the held Stop was handled, connection task finished, no panic. \
